@@ -4,12 +4,19 @@ import pipeline_check as PC
 import pipeline_engine as PE
 import vf
 
-NAMES = [b"X", b"X_sum", b"X_count", b"X_bucket"]
+import gen_line as GL
+LONG = GL.LONG_NAME
+# the four names of one histogram/summary family; the same for a name beyond any fixed buffer; names carrying two suffixes
+FAMILIES = [[b"X", b"X_sum", b"X_count", b"X_bucket"], [LONG, LONG + b"_sum", LONG + b"_count", LONG + b"_bucket"],
+            [LONG[:121], LONG[:121] + b"_sum", LONG[:121] + b"_count", LONG[:121] + b"_bucket"],
+            [b"X_count", b"X_count_sum", b"X_sum", b"X_sum_bucket"]]
+NAMES = FAMILIES[0]
 TYPES = [b"c", b"g", b"ms", b"h"]
 
 
 def gen_case(rnd):
     ops = []
+    NAMES = rnd.choice(FAMILIES + [FAMILIES[0]] * 2)
     hist = rnd.random() < 0.5
     rules = [GM.rule(b"*", b"$1", mmt=None, help=b"r0", ttl=rnd.choice([0, 0, 2 * 10**9]))]
     d = GM.defaults(observer_type=b"histogram" if hist else None)
